@@ -109,6 +109,8 @@ TEMPLATES = {
     'strip3_flipped': ['abc', 'abd', 'dae'],
     'two_components': ['abc', 'bad', 'efg'],
     'fan3_closed': ['abc', 'acd', 'adb'],
+    'fan3_flipped': ['abc', 'adc', 'ade'],
+    'tetra_flipped': ['abc', 'bad', 'cbd', 'adc'],
     'bowtie3': ['abc', 'ade', 'afg'],
     'edge_three_times': ['abc', 'abd', 'abe'],
     'tetra': ['abc', 'bad', 'cbd', 'acd'],
@@ -174,18 +176,25 @@ def u_edges(F=2, V=None, contact=None, template=None, ordered=False):
                     obs.append(holds(f'face {i} edge index in range', False))
                 else:
                     obs.append(holds(f'face {i} maps to its own edges', und(a, b, E[idx][0], E[idx][1])))
-        # boundary loops: every boundary edge exactly once over all loops, as consecutive (cyclic) vertices
+        # boundary loops: every boundary edge exactly once over all loops, as consecutive (cyclic) vertices.  With
+        # inconsistent winding directed boundary cycles need not exist, so there only the weaker clauses are asked:
+        # every boundary edge exactly once among the cyclic steps, and every non-closing step is a boundary edge.
         steps = []
+        open_steps = []
         for lp in loops.items:
             L = [ival(x) for x in lp.items]
             for k in range(len(L)):
                 steps.append((L[k], L[(k + 1) % len(L)]))
+                if k + 1 < len(L):
+                    open_steps.append((L[k], L[k + 1]))
             obs.append(holds('a loop has at least three vertices', z3.Implies(consistent, z3.BoolVal(len(L) >= 3))))
         for (a, b, _i) in dir_edges:
             is_b = mult(a, b) == 1
-            obs.append(holds('each boundary edge is in exactly one loop, once', z3.Implies(z3.And(consistent, is_b), cnt([und(a, b, c, d) for (c, d) in steps]) == 1)))
+            obs.append(holds('each boundary edge is in exactly one loop, once', z3.Implies(is_b, cnt([und(a, b, c, d) for (c, d) in steps]) == 1)))
+        for (c, d) in open_steps:
+            obs.append(holds('loop steps are boundary edges', z3.Or([z3.And(und(a, b, c, d), mult(a, b) == 1) for (a, b, _i) in dir_edges])))
         for (c, d) in steps:
-            obs.append(holds('loop steps are boundary edges', z3.Implies(consistent, z3.Or([z3.And(und(a, b, c, d), mult(a, b) == 1) for (a, b, _i) in dir_edges]))))
+            obs.append(holds('closing steps of loops are boundary edges (consistent winding)', z3.Implies(consistent, z3.Or([z3.And(und(a, b, c, d), mult(a, b) == 1) for (a, b, _i) in dir_edges]))))
         return obs
 
     nb = 2 * 3 * F + 4
@@ -223,15 +232,21 @@ def j_edges(o, rep, out):
     for f in fs:
         for e in ((f[1], f[2]), (f[2], f[0]), (f[0], f[1])):
             dirs[e] += 1
-    if max(dirs.values()) > 1:
-        return False          # inconsistent winding: only termination is required, and it terminated
+    consistent = max(dirs.values()) <= 1
     steps = Counter()
+    open_steps = []
     for L in r['loops']:
         for k in range(len(L)):
             steps[und_(L[k], L[(k + 1) % len(L)])] += 1
+            if k + 1 < len(L):
+                open_steps.append(und_(L[k], L[k + 1]))
     bnd = Counter({e: 1 for e, k in c.items() if k == 1})
-    if steps != bnd:
-        return 'boundary loops do not cover the boundary edges exactly once'
+    if any(e not in bnd for e in open_steps):
+        return 'a loop runs along an edge that is not a boundary edge' + ('' if consistent else ' (inconsistent winding)')
+    if any(steps[e] != 1 for e in bnd):
+        return 'boundary loops do not cover the boundary edges exactly once' + ('' if consistent else ' (inconsistent winding)')
+    if consistent and steps != bnd:
+        return 'boundary loops are not closed cycles of boundary edges'
     return False
 
 
@@ -485,7 +500,7 @@ JUDGES = {'chained_indices': j_chain, 'identify_edges': j_edges, 'patch_indices'
           'create_cylinder': j_cylinder}
 
 UNITS = {
-    'quick': [('u_chain', {'n': 2}), ('u_chain', {'n': 3}), ('u_edges', {'F': 1})] + [('u_edges', {'template': t}) for t in ('vertex_contact', 'vertex_contact_rot', 'shared_edge', 'shared_edge_flipped', 'pillow')] + [('u_edges', {'template': 'disjoint', 'ordered': True}), ('u_patches', {'F': 2}), ('u_patches', {'template': 'strip3'}), ('u_patches', {'template': 'strip3_flipped'}),
+    'quick': [('u_chain', {'n': 2}), ('u_chain', {'n': 3}), ('u_edges', {'F': 1})] + [('u_edges', {'template': t}) for t in ('vertex_contact', 'vertex_contact_rot', 'shared_edge', 'shared_edge_flipped', 'pillow', 'fan3_flipped')] + [('u_edges', {'template': 'disjoint', 'ordered': True}), ('u_patches', {'F': 2}), ('u_patches', {'template': 'strip3'}), ('u_patches', {'template': 'strip3_flipped'}),
               ('u_clusters', {'n': 2}), ('u_box', {}), ('u_cylinder', {'steps': 3}), ('u_cylinder', {'steps': 4}), ('u_cylinder', {'steps': 5})],
     'thorough': [('u_chain', {'n': 2}), ('u_chain', {'n': 3}), ('u_chain', {'n': 4}), ('u_edges', {'F': 1})] + [('u_edges', {'template': t}) for t in TEMPLATES if t not in ('one', 'disjoint', 'bowtie3', 'tetra')] + [('u_edges', {'template': t, 'ordered': True}) for t in ('disjoint', 'bowtie3', 'tetra')] + [
                  ('u_patches', {'F': 2}), ('u_patches', {'F': 3, 'V': 4})] + [('u_patches', {'template': t}) for t in ('strip3', 'strip3_flipped', 'fan3_closed', 'bowtie3', 'two_components', 'tetra')] + [ ('u_clusters', {'n': 2}), ('u_clusters', {'n': 3}),
